@@ -371,6 +371,70 @@ def run_env(case, out):
         os.environ.pop(canary_name, None)
 
 
+# ------------------------------------------------------------------ locale environment variables
+LOCALE_ENV_CHILD = r'''
+import sys, json, locale
+sys.path.insert(0, %(repo)r)
+lc0 = locale.setlocale(locale.LC_COLLATE)
+import xml.etree.ElementTree as ET
+import elementpath
+from elementpath import XPath2Parser
+from elementpath.xpath31 import XPath31Parser
+root = ET.XML('<a>b</a>')
+out = {'lc_at_start': lc0, 'results': {}}
+for name, P in (('2.0', XPath2Parser), ('3.1', XPath31Parser)):
+    for e in ("default-collation()", "compare('a', 'B')", "compare('a', 'B') = compare('a', 'B', default-collation())",
+              "deep-equal('a', 'A')", "max(('a', 'B'))", "distinct-values(('a', 'A'))", "index-of(('a', 'A'), 'a')"):
+        try:
+            out['results'][name + ' ' + e] = repr(elementpath.select(root, e, parser=P))
+        except Exception as x:
+            out['results'][name + ' ' + e] = 'ERR:' + type(x).__name__ + ':' + str(getattr(x, 'code', ''))
+out['lc_at_end'] = locale.setlocale(locale.LC_COLLATE)
+print(json.dumps(out))
+'''
+
+LOCALE_ENVS = [{}, {'LC_ALL': 'C.UTF-8'}, {'LC_COLLATE': 'C.UTF-8'}, {'LANG': 'C.UTF-8'}, {'LC_ALL': 'C'},
+               {'LANG': 'en_US.UTF-8'}, {'LC_ALL': 'xx_YY.UTF-8'}, {'LANG': 'C.UTF-8', 'LC_COLLATE': 'POSIX'}]
+
+
+def run_locale_env(case, out):
+    """with default settings no LC_* / LANG variable is observable: results and LC_COLLATE equal the run without them"""
+    base = None
+    for envset in LOCALE_ENVS:
+        env = {k: v for k, v in os.environ.items() if k not in ('LC_ALL', 'LC_COLLATE', 'LANG', 'LANGUAGE', 'LC_CTYPE')}
+        env.update(envset)
+        env['PYTHONHASHSEED'] = '0'
+        try:
+            p = subprocess.run([sys.executable, '-c', LOCALE_ENV_CHILD % {'repo': bootstrap.REPO}],
+                               capture_output=True, text=True, timeout=120, env=env)
+        except subprocess.TimeoutExpired:
+            out.fail('C19/locale-env/child-timeout', str(envset))
+            continue
+        if p.returncode != 0 or not p.stdout.strip():
+            out.fail('C19/locale-env/child-crashed', '%s: %s' % (envset, p.stderr[-300:]))
+            continue
+        data = json.loads(p.stdout.strip().splitlines()[-1])
+        out.dim('locale_env_children', 'ok')
+        if data['lc_at_end'] != data['lc_at_start']:
+            out.fail('C19/locale-env/LC_COLLATE-changed-by-import-or-evaluation',
+                     '%s: LC_COLLATE %r at start, %r at end' % (envset, data['lc_at_start'], data['lc_at_end']))
+        # the default collation is documented to follow the PROCESS locale in force when the parser is built (the
+        # interpreter itself may set it from LC_COLLATE at start-up): children are compared with the first child
+        # that started under the same process locale; beyond that, no variable may be observable
+        if base is None:
+            base = {}
+        ref = base.setdefault(data['lc_at_start'], (dict(envset), data['results']))
+        if ref[1] is data['results']:
+            continue
+        for k, v in data['results'].items():
+            out.dim('locale_env_comparisons', 'n')
+            if ref[1].get(k) != v:
+                out.fail('C19/locale-env/result-depends-on-environment',
+                         '%s with %s gives %s, with %s (same process locale %r at start) %s' % (
+                             k, envset, v, ref[0], data['lc_at_start'], ref[1].get(k)))
+                break
+
+
 # ------------------------------------------------------------------ entities
 def payloads(canary, path):
     ent = '<!ENTITY e "%s">' % canary
@@ -662,6 +726,9 @@ def check_case(kind, case):
     elif kind == 'entity':
         run_entity(case, out)
         out.obs = '13 DOCTYPE/entity payloads x parse-xml/parse-xml-fragment x et/lxml x 3.0/3.1'
+    elif kind == 'locale_env':
+        run_locale_env(case, out)
+        out.obs = 'child interpreters under %d settings of LC_ALL / LC_COLLATE / LANG' % len(LOCALE_ENVS)
     elif kind == 'ambient':
         run_ambient(case, out)
         out.obs = '%d expressions, state monitors after each' % len(case['exprs'])
@@ -676,6 +743,7 @@ def run(h):
     if h.shard == 0:
         h.case('env', {'token': str(h.seed), 'exprs': AMBIENT[:20]}, cpu=120)
         h.case('entity', {'token': str(h.seed)}, cpu=120)
+        h.case('locale_env', {}, cpu=120)
         h.case('ambient', {'exprs': AMBIENT}, cpu=300)
     mat = ambient_matrix(r, h.n(400))
     mine = mat[h.shard::h.nshards] if h.nshards > 1 else mat
@@ -729,6 +797,8 @@ def floors(v):
     for k in KINDS:
         if v.got('call_kind', k) < 100:
             reasons.append('call kind %s exercised fewer than 100 times' % k)
+    if v.got('locale_env_children', 'ok') < 6:
+        reasons.append('fewer than 6 child interpreters under locale environment variables')
     if v.got('entity_probe') < 100:
         reasons.append('fewer than 100 entity probes')
     if v.got('env_probe', 'allowed-visible') < 1:
